@@ -17,3 +17,5 @@ cat > $d/meta.json <<EOT
  "ran":"git -C /repo apply patch.diff; ./check $prop quick","detected":$([ $det -gt 0 ] && echo true || echo false),
  "first_violation":$(echo "$out" | head -1 | python3 -c 'import json,sys;print(json.dumps(sys.stdin.read().strip()))')}
 EOT
+# the evidence files describe the unchanged tree: what the runs against a seeded change wrote is dropped
+git -C /verif checkout -q -- evidence 2>/dev/null
